@@ -1,6 +1,6 @@
 """C11 -- marginal queries (structural clauses)."""
 from ..core import Ctx, Ob, PropSpec
-from ..rules import r4, r4lite, r8
+from ..rules import r4, r4lite, r8, r13
 
 EXPFAM = "cirkit.backend.torch.layers.input.TorchExpFamilyLayer"
 
@@ -13,6 +13,8 @@ def run(ctx: Ctx) -> list[Ob]:
     obs += r8.run_guards(ctx, [g for g in r8.GUARDS_QUERIES if "IntegrateQuery" in g.func])
     obs += r4.layer_contracts(ctx, {"R4c"})
     obs += r4.query_contracts(ctx, {"integrate"})
+    obs += r13.r13d(ctx)
+    obs += r8.scope_membership(ctx, "cirkit.backend.torch.queries.IntegrateQuery.scopes_to_mask", "out-of-scope:membership")
     return obs
 
 
@@ -27,9 +29,9 @@ SPEC = PropSpec(
         "IntegrateQuery (__init__, __call__, scopes_to_mask, _layer_fn) fire under every valuation; R4c / R4q (symbolic shape interpretation of the source, nothing "
         "executed): log_partition_function() and integrate() of every exponential-family layer return (F, 1, Ko) in every "
         "parameterisation, and IntegrateQuery._layer_fn applied to every concrete input layer with a mask of batch 1 or B returns "
-        "(F, B, Ko) -- the torch.where selection broadcasts for every batch and fold size, not only when they coincide."
+        "(F, B, Ko) -- the torch.where selection broadcasts for every batch and fold size, not only when they coincide. R13d: the per-sample rows of the mask built by scopes_to_mask are addressed with the counter of enumerate over the batch sequence itself (the one whose length sizes the mask), never over a filtered copy -- 'per sample' means sample k's scope lands in row k even when an earlier sample marginalises nothing; R8m: the out-of-scope refusal derives from the circuit's scope used as a set (difference / subset / membership), not from a bound on the largest id."
     ),
     not_decided="numerical equality with the symbolic integrate; the mask arithmetic of _layer_fn.",
     run=run,
-    floors={"R4": 4, "R8": 6, "R4c": 10, "R4q": 10},
+    floors={"R13d": 1, "R8m": 1, "R4": 4, "R8": 6, "R4c": 10, "R4q": 10},
 )
